@@ -38,6 +38,8 @@ type lcScenario struct {
 	compInterval time.Duration
 	wipeLocal    bool
 	lexOrder     bool
+	realGateway  bool  // gateways are real store.BucketStore instances instead of the hand-written view
+	noCompact    []int // indexes of blocks that carry a no-compact mark from the start
 	strip        []string
 	originals    map[string]int // sample identity -> 1
 	srcDir       string
@@ -132,6 +134,16 @@ func genLifecycle(x *simkit.Exec, defaults cmdDefaults) (*lcScenario, error) {
 	sc.cfg.metaCacheDir = x.Bool("metaCacheDir", 1, 2)
 	sc.wipeLocal = x.Bool("wipeLocal", 1, 3)
 	sc.lexOrder = x.Bool("lexListing", 1, 2)
+	sc.realGateway = x.Bool("realGateway", 1, 2)
+	// (only where blocks do not overlap: an excluded block that overlaps others legitimately keeps
+	// its samples served twice)
+	if x.Bool("noCompactMarks", 1, 3) && (sc.layout == "aligned" || sc.layout == "two-groups") {
+		for i := range sc.blocks {
+			if x.Bool("noCompact", 1, 3) {
+				sc.noCompact = append(sc.noCompact, i)
+			}
+		}
+	}
 	sc.gateways = x.Range("gateways", 1, 2)
 	slack := sc.cfg.deleteDelay - sc.ignoreDelay
 	maxSkew := sc.ignoreDelay / 10
@@ -183,7 +195,7 @@ func (sc *lcScenario) describe() map[string]any {
 	}
 	return map[string]any{"layout": sc.layout, "blocks": bl, "delete_delay": sc.cfg.deleteDelay.String(), "consistency_delay": sc.cfg.consistencyDelay.String(),
 		"ignore_deletion_marks_delay": sc.ignoreDelay.String(), "gateway_sync": fmt.Sprint(sc.gwInterval), "gateway_skew": fmt.Sprint(sc.gwSkew), "compactor_interval": sc.compInterval.String(),
-		"vertical": sc.cfg.vertical, "replica_labels": sc.cfg.replicaLabels, "ranges_h": fmt.Sprint(len(sc.cfg.ranges)), "samples": len(sc.originals)}
+		"vertical": sc.cfg.vertical, "no_compact_marked": len(sc.noCompact), "fetch_concurrency": sc.cfg.fetchConc, "real_store_gateway": sc.realGateway, "replica_labels": sc.cfg.replicaLabels, "ranges_h": fmt.Sprint(len(sc.cfg.ranges)), "samples": len(sc.originals)}
 }
 
 // lcOpts selects what one execution of the scenario injects and checks.
@@ -192,6 +204,7 @@ type lcOpts struct {
 	shutdownAt   int  // graceful shutdown: cancel the compactor's context at its k-th bucket operation, restart afterwards
 	outages      bool // seeded write outages (several consecutive uploads/deletes fail)
 	syncReadFail int  // fail the k-th bucket read performed inside a compactor meta sync (0 = never)
+	bodyFail     bool // ... as a body that breaks off after the request succeeded (gets only), not as a failed request
 	faults       bool // seeded transient bucket errors for the compactor
 	gwFaults     bool // seeded transient errors for gateway syncs
 	crashRate    int  // per-mille chance that any compactor bucket operation kills the compactor
@@ -236,6 +249,11 @@ func (sc *lcScenario) execute(x *simkit.Exec, salt string, o lcOpts) lcResult {
 				return
 			}
 		}
+		for _, i := range sc.noCompact {
+			id := sc.blocks[i].ID.String()
+			_ = bkt.Inner.Upload(ctx, id+"/"+metadata.NoCompactMarkFilename,
+				strings.NewReader(fmt.Sprintf(`{"id":%q,"version":1,"no_compact_time":1,"reason":"manual"}`, id)))
+		}
 		// canonical names of the fixture blocks are fixed before anything runs concurrently
 		for _, sp := range sc.blocks {
 			bkt.Canon(sp.ID.String())
@@ -254,6 +272,13 @@ func (sc *lcScenario) execute(x *simkit.Exec, salt string, o lcOpts) lcResult {
 			if err != nil {
 				x.Troublef("gateway: %v", err)
 				return
+			}
+			if sc.realGateway {
+				if err := gv.useRealStore(filepath.Join(x.TempDir(), "gw-"+salt, gv.name), sc.cfg.defs); err != nil {
+					x.Troublef("store gateway: %v", err)
+					return
+				}
+				defer gv.close()
 			}
 			gws = append(gws, gv)
 		}
@@ -306,7 +331,19 @@ func (sc *lcScenario) execute(x *simkit.Exec, salt string, o lcOpts) lcResult {
 		failedIter := -1
 		curIter := 0
 		bkt.AfterOp = func(op simbucket.Op) {
+			if sc.realGateway && strings.HasPrefix(op.Actor, "gw") && serving {
+				// a real store changes its served set in the middle of SyncBlocks
+				for _, g := range gws {
+					g.refresh()
+				}
+				checkAvailability("during sync of " + op.Actor + ", after " + op.String())
+			}
 			if op.Effect {
+				if sc.realGateway {
+					for _, g := range gws {
+						g.refresh()
+					}
+				}
 				checkAvailability("after " + op.String())
 				if o.checkNoDestr && op.Actor == "compactor" && failedIter == curIter {
 					destructiveAfterFail = append(destructiveAfterFail, op.String())
@@ -380,7 +417,7 @@ func (sc *lcScenario) execute(x *simkit.Exec, salt string, o lcOpts) lcResult {
 						}
 						if kind == "get" || kind == "iter" || kind == "exists" || kind == "attributes" {
 							res.syncReads++
-							if res.syncReads == o.syncReadFail {
+							if res.syncReads == o.syncReadFail && !(o.bodyFail && kind == "get") {
 								failedIter = curIter
 								res.intercepted = true
 								x.CountFault("sync-read-failure:" + kind)
@@ -388,6 +425,16 @@ func (sc *lcScenario) execute(x *simkit.Exec, salt string, o lcOpts) lcResult {
 							}
 						}
 						return nil
+					}
+					h.InterceptReader = func(kind, name string, size int) (int, bool) {
+						// the matching get was counted by Intercept just before
+						if o.bodyFail && inSync && kind == "get" && res.syncReads == o.syncReadFail && !res.intercepted && size > 0 {
+							failedIter = curIter
+							res.intercepted = true
+							x.CountFault("sync-read-body-breaks-off")
+							return x.Tape.Draw("bodyFailAfter", size), true
+						}
+						return 0, false
 					}
 					var err error
 					node, err = newCompactorNode(nodeCtx, h, dataDir, sc.cfg)
